@@ -34,6 +34,7 @@ def decorate(sc, prof):
     sc = decorate_mw(sc, prof, random.Random(h ^ 0x3C0FFEE))
     sc = decorate_config(sc, prof, random.Random(h ^ 0xC0F16))
     sc = decorate_reg(sc, prof, random.Random(h ^ 0x2E615))
+    sc = decorate_dup(sc, prof, random.Random(h ^ 0xD0B1E))
     return sc
 
 
@@ -406,6 +407,142 @@ def decorate_reg(sc, prof, rr):
     return sc
 
 
+# --------------------------------------------------------------------------------------------- seventh stage: one task NAME, two functions
+DEP_POOL = [("state", "state"), ("state", "state"), ("context", "context"), ("conn", "custom-sync"), ("session", "custom-async"),
+            ("db", "custom-gen"), ("cache", "custom-asyncgen")]
+DUP_RELATIONS = ["hidden-has-more", "hidden-has-more", "hidden-has-more", "designated-has-more", "designated-has-more", "same", "disjoint"]
+
+
+def dup_shapes(rr):
+    """parameter lists of the two functions registered under one name: (designated, hidden, relation of their injected parameters).
+    shape = dict(hints, opt_kw, varkw, deps = [[parameter, kind, form]]) - see recv_driver.shaped_function"""
+    rel = rr.choice(DUP_RELATIONS)
+    pool = {}
+    for pname, kind in DEP_POOL:
+        pool.setdefault(pname, kind)
+    names = list(pool)
+    rr.shuffle(names)
+
+    def dep(pname):
+        return [pname, pool[pname], rr.choice(["default", "default", "annotated"])]
+
+    common = [dep(names.pop()) for _ in range(rr.choice([0, 0, 0, 1]) if rel != "same" else rr.choice([0, 1, 1, 2]))]
+    more = [dep(names.pop()) for _ in range(rr.choice([1, 1, 2]))]
+    more2 = [dep(names.pop()) for _ in range(rr.choice([1, 1, 2]))]
+    a = dict(deps=[list(d) for d in common])        # designated
+    b = dict(deps=[list(d) for d in common])        # hidden
+    if rel == "hidden-has-more":
+        b["deps"] += more
+    elif rel == "designated-has-more":
+        a["deps"] += more
+    elif rel == "disjoint":
+        a["deps"] += more
+        b["deps"] += more2
+    for sh in (a, b):
+        rr.shuffle(sh["deps"])
+        sh["hints"] = rr.random() < .7
+        sh["opt_kw"] = rr.random() < .3
+        sh["varkw"] = rr.random() < .08
+    return a, b, rel
+
+
+def dup_stale(lo, wi, rebuilt=False):
+    """a Receiver may be BUILT while the hidden function is visible under the name and the designated one is not yet: the hidden
+    registration is visible to the worker's broker (global registry / its own) before the Receiver exists, the designated one
+    comes later.  rebuilt: taskiq.api.run_receiver_task builds a new Receiver whenever listen() failed (recv_props.gen_live) - at
+    instants the scenario does not fix; then: whenever the hidden one is registered at an earlier step than the designated one
+    (not back to back in one synchronous step: both pre, both post, two timers of one instant)"""
+    if lo["where"] == "other":
+        return False
+    if rebuilt:
+        rank = dict(pre=0, post=1, at=2)
+        return (rank[lo["when"]], lo["at_us"] or 0) < (rank[wi["when"]], wi["at_us"] or 0)
+    return lo["when"] == "pre" and wi["when"] != "pre"
+
+
+def decorate_dup(sc, prof, rr):
+    """prof: dup_p (default 0: opt-in).  Touches nothing but which task some valid known-task messages name and what is
+    registered under that name; schedule, durations, outcomes, wire decoration stay what they were.  Until now every task name
+    had ONE function.  A worker's application also OVERRIDES a task a library publishes through async_shared_broker by
+    registering its own implementation under the same name on its broker (documented: local tasks have higher priority), a
+    re-imported / reloaded module registers a name again, and another broker object of the process may hold the name too.
+    Two entries are appended to sc["late"] (same keys as decorate_reg's, plus role and shape), both under one name:
+      role designated: the function AsyncBroker.find_task(name) on the worker's broker hands out on the unchanged tree once both
+                       are registered - the worker's own registry first, then the global one; within one registry the later
+                       registration.  where: decorator | register_task (the worker's broker) | shared (only when the other one
+                       sits on another broker object)
+      role shadowed:   ANOTHER function (own parameter list, own sync / async style) that find_task never hands out.  where:
+                       shared (the published default that the application overrides) | decorator / register_task (the SAME
+                       local registry, strictly earlier: re-registration) | other (another broker object)
+      shape            parameter lists differ: injected parameters (TaskiqDepends: TaskiqState, Context, own providers - plain,
+                       async, generator, async generator; `= TaskiqDepends()` defaults or keyword-only Annotated[...] ones)
+                       that only one of the two has / both have / each has its own; annotated or bare message parameters; a
+                       further optional parameter; a **catch-all
+      when             each of the two: pre | post | at (decorate_reg's meaning), in either order - shared first / local first,
+                       both before the Receiver exists (the majority), one before and one after, both after.
+    Every message naming that name arrives strictly after BOTH registrations and is a valid known-task message: it must enter
+    the designated function exactly once (the driver logs the shadowed function's entries as shadow.in).
+    Not generated (unchanged-tree behaviour, corpus/C01/findings): the hidden function visible at Receiver.__init__, the
+    designated one registered only afterwards, and parameter lists whose INJECTED parameters differ - the Receiver keeps the
+    dependency graph it prepared for the name (dup_stale: such pairs get equal injected parameters; under run_receiver_task,
+    which builds a new Receiver after every failed listen(), that is every pair whose hidden function is registered at an earlier
+    step than the designated one)."""
+    if rr.random() >= prof.get("dup_p", 0):
+        return sc
+    msgs = sc["msgs"]
+    cand = [i for i, m in enumerate(msgs) if m["kind"] == "ok" and not m.get("probe") and "task" not in m]
+    if not cand:
+        return sc
+    i0 = rr.choice(cand[:max(1, len(cand) // 2)]) if rr.random() < .6 else rr.choice(cand)
+    style = msgs[i0].get("style", "async")
+    mine = [i0] + [i for i in cand if i > i0 and msgs[i].get("style", "async") == style and rr.random() < .6]
+    name = "jobs.shared:process_%s" % style
+    a, b, rel = dup_shapes(rr)
+    lo_where = rr.choice(["shared"] * 7 + ["local", "local", "other"])
+    wi_where = rr.choice(["decorator", "decorator", "register_task"] + (["shared", "shared"] if lo_where == "other" else []))
+    if lo_where == "local":
+        lo_where = rr.choice(["decorator", "register_task"])
+    k = rr.random()
+    phases = ("pre", "pre") if k < .55 else ("pre", "late") if k < .7 else ("late", "pre") if k < .8 else ("late", "late")
+    hi = msgs[i0]["at"] - 1
+
+    def late_when():
+        """(when, at_us): after the Receiver exists - before anything is listened to, or at an instant while listen() runs"""
+        if hi < 0 or rr.random() < .4:
+            return "post", None
+        earlier = [m["at"] for m in msgs[:i0] if m["at"] <= hi]
+        x = rr.random()
+        if earlier and x < .6:
+            return "at", min(hi, rr.choice(earlier) + rr.choice([0, 0, 1, 50_000, POLL, US]))
+        return "at", hi if x < .85 else rr.randrange(0, hi + 1)
+
+    lo = dict(name=name, style=rr.choice(["async", "async", "sync"]) if rr.random() < .5 else style, where=lo_where, when="pre", at_us=None,
+              role="shadowed", shape=b)
+    wi = dict(name=name, style=style, where=wi_where, when="pre", at_us=None, role="designated", shape=a)
+    if phases[0] == "late":
+        lo["when"], lo["at_us"] = late_when()
+    if phases[1] == "late":
+        wi["when"], wi["at_us"] = late_when()
+    same_registry = lo["where"] in ("decorator", "register_task")
+    order = [lo, wi] if same_registry or rr.random() < .5 else [wi, lo]
+    if same_registry:
+        # re-registration in one registry: the hidden one strictly earlier (same pre / post phase: the order of the list)
+        rank = dict(pre=0, post=1, at=2)
+        kl, kw = (rank[lo["when"]], lo["at_us"] or 0), (rank[wi["when"]], wi["at_us"] or 0)
+        if kl > kw or (kl == kw and lo["when"] == "at"):
+            lo["when"], lo["at_us"] = ("post", None) if wi["when"] == "at" else (wi["when"], None)
+    if dup_stale(lo, wi, prof.get("dup_rebuilt")) and not prof.get("dup_stale_any"):
+        # (see the docstring; dup_stale_any: probing switch, no profile of a check sets it) equal injected parameters; everything else still differs
+        lo["shape"]["deps"] = [list(d) for d in wi["shape"]["deps"]]
+        rel = "same(designated-registered-after-the-Receiver-exists)"
+    for i in mine:
+        msgs[i]["task"] = name
+    sc["late"] = (sc.get("late") or []) + order
+    sc.setdefault("shared_default", rr.choice(["before", "before", "after", None]))
+    sc["dup"] = dict(name=name, relation=rel, first=order[0]["role"])
+    return sc
+
+
 # --------------------------------------------------------------------------------------------- the worker's life cycle: run_receiver_task
 LIVE_EXC = ["connection", "connection", "runtime", "timeout", "os", "eof", "custom", "falsy", "group", "broker"]
 
@@ -425,7 +562,8 @@ def gen_live(r, prof, base=None, n_faults=None):
     Every listen() call is one *session*; the LTS models one session, so these runs are decided by the direct oracles only."""
     if base is None:
         base = gen_base(r, dict(prof, cli_p=0))
-    sc = decorate(base, dict(prof, api_p=0))
+    # (dup_rebuilt: run_receiver_task builds a new Receiver per failed listen() - see dup_stale; gen_relisten's supervisor does not)
+    sc = decorate(base, dict(prof, api_p=0, dup_rebuilt=prof.get("dup_rebuilt", True)))
     msgs = sc["msgs"]
     n0 = sum(1 for m in msgs if not m.get("probe"))
     last_at = msgs[n0 - 1]["at"] if n0 else 0
@@ -593,7 +731,7 @@ def gen_relisten(r, prof):
             m["at"] = t
         extra += t
         if r.random() < prof.get("relisten_any_p", .15):
-            sc = gen_live(r, prof, base=base, n_faults=r.choice([1, 1, 2]))
+            sc = gen_live(r, dict(prof, dup_rebuilt=False), base=base, n_faults=r.choice([1, 1, 2]))
             faults = sc["live"]["faults"]
             placed = "any"
         else:
@@ -601,7 +739,7 @@ def gen_relisten(r, prof):
             for _ in range(r.choice([1, 1, 1, 2, 2, 3])):
                 faults.append(dict(k=min(k, n0 - 1), busy=True, until=n0, exc=r.choice(LIVE_EXC), hold=False, at_us=None, mode="all-slots-busy"))
                 k += r.choice([0, 0, 1, 1, 2])
-            sc = gen_live(r, prof, base=base, n_faults=0)
+            sc = gen_live(r, dict(prof, dup_rebuilt=False), base=base, n_faults=0)
             placed = "busy"
         sv = dict(mode="fault", placed=placed, event=r.choice(["shared", "shared", "fresh"]), backoff_us=r.choice([0, 0, 1, 50_000, POLL, US]))
         extra += sv["backoff_us"] * len(faults)
@@ -621,7 +759,7 @@ def gen_relisten(r, prof):
                 long_valid(m, [US, US, 3 * US])
         base["stop_us"], base["wtt_us"] = stop, wtt
         base["horizon_us"] = t + stop + wtt + pause + sum(max(m["dur"], 0) + m.get("cleanup_us", 0) for m in msgs) + 10 * US
-        sc = gen_live(r, prof, base=base, n_faults=0)
+        sc = gen_live(r, dict(prof, dup_rebuilt=False), base=base, n_faults=0)
         sv = dict(mode="stop", event=r.choice(["fresh", "fresh", "cleared"]), pause_us=pause, relistens=1, old_in_flight=j)
     sc["live"]["faults"] = faults
     sc["live"]["supervisor"] = sv
@@ -754,8 +892,30 @@ def count_inputs(rep, sc):
     if sc.get("stop_on"):
         rep.count("stop-relative-to-event:%s" % sc["stop_on"]["tag"])
     for t in sc.get("late") or []:
+        if t.get("role"):
+            continue
         rep.count("registration:%s/%s" % (t["where"], t["when"] if t["when"] != "at" else "while-listening"))
-    if sc.get("late"):
+    if sc.get("dup"):
+        d = sc["dup"]
+        lo = next(t for t in sc["late"] if t.get("role") == "shadowed")
+        wi = next(t for t in sc["late"] if t.get("role") == "designated")
+        wh = lambda t: t["when"] if t["when"] != "at" else "while-listening"
+        rep.count("override:scenario-with-one-task-name-registered-with-two-functions")
+        rep.count("override:messages-naming-it=%d" % min(4, sum(1 for m in sc["msgs"] if m.get("task") == d["name"])))
+        rep.count("override:hidden=%s/%s,designated=%s/%s" % (lo["where"], wh(lo), wi["where"], wh(wi)))
+        rep.count("override:registered-first=" + d["first"])
+        rep.count("override:injected-parameters=" + d["relation"])
+        rep.count("override:styles:designated=%s,hidden=%s" % (wi["style"], lo["style"]))
+        for t, who in ((lo, "hidden"), (wi, "designated")):
+            for _, kind, form in t["shape"]["deps"]:
+                rep.count("override:%s-injected-parameter:%s/%s" % (who, kind, form))
+            if t["shape"].get("varkw"):
+                rep.count("override:%s-has-**catch-all" % who)
+            if t["shape"].get("opt_kw"):
+                rep.count("override:%s-has-further-optional-parameter" % who)
+            if not t["shape"].get("hints", True):
+                rep.count("override:%s-message-parameters-not-annotated" % who)
+    if any(not t.get("role") for t in sc.get("late") or []):
         rep.count("registration:scenario-with-late-or-shared-task")
         rep.count("registration:shared-broker-default=%s" % sc.get("shared_default"))
     if same_receiver(sc):
@@ -1003,6 +1163,8 @@ class Facts:
 
         self.cbstart, self.cbend, self.cbdone = times("cb.start"), times("cb.end"), times("cb.done")
         self.bodyin, self.bodyout, self.acks = times("body.in"), times("body.out"), times("ack")
+        # entries of a function registered under the message's task name that find_task does not designate (decorate_dup)
+        self.shadowin = times("shadow.in")
         self.ackend = times("ack.end")       # `ack` = the ack callable was invoked, `ack.end` = the acknowledgement completed
         self.save, self.saveend = times("save"), times("save.end")     # set_result entered / the attempt has completed
         # class and message of the error the execution of message i ended with, as post_execute / the result backend saw it
